@@ -718,6 +718,100 @@ std::string runGroups(const Case &c) {
   return "";
 }
 
+
+// ---------------------------------------------------------------- mutate mode (C04, rapidcheck part)
+// grammar-aware mutations of valid lines; any outcome is fine except a sanitizer report (the process dies and the
+// driver picks the case up), a non-std exception, or a hang (alarm).
+rc::Gen<Case> genMutate() {
+  return rc::gen::exec([]() {
+    Case c;
+    Profile pf = profileFor("valid");
+    c.cfg = genConfig(pf);
+    if (c.cfg.args.empty()) { c.discarded = true; c.discardWhy = "no_args"; return c; }
+    if (pick(30)) c.cfg.flags |= F_VERBOSE;
+    Line base = genValidLine(c.cfg, pf);
+    Variant v;
+    v.line = base;
+    std::vector<std::string> words = spell(c.cfg, base, SpellOptions());
+    const std::vector<std::string> specials = {"=", "-", "--", "(", ")", "!", ",", ";", "---", "-=", "--=", "--=x", "-!", "!-", "-(", "--(", "=-", "-- --"};
+    auto randomBytes = [&](int maxLen) { std::string r; int n = *range<int>(0, maxLen); for (int i = 0; i < n; ++i) r += static_cast<char>(*range<int>(1, 255)); return r; };
+    int nm = *range<int>(1, 4);
+    for (int k = 0; k < nm; ++k) {
+      int op = *range<int>(0, 9);
+      if (words.empty() && op != 6 && op != 7) op = 6;
+      size_t i = words.empty() ? 0 : *range<size_t>(0, words.size() - 1);
+      switch (op) {
+        case 0: words.erase(words.begin() + static_cast<long>(i)); break;
+        case 1: words.insert(words.begin() + static_cast<long>(i), words[i]); break;
+        case 2: { size_t j = *range<size_t>(0, words.size() - 1); std::swap(words[i], words[j]); break; }
+        case 3: words[i] = words[i].substr(0, *range<size_t>(0, words[i].size())); break;
+        case 4: { size_t p = *range<size_t>(0, words[i].size()); words[i].insert(p, oneOf(specials)); break; }
+        case 5: words[i] = randomBytes(20); break;
+        case 6: words.insert(words.begin() + static_cast<long>(*range<size_t>(0, words.size())), oneOf(specials)); break;
+        case 7: words.insert(words.begin() + static_cast<long>(*range<size_t>(0, words.size())), randomBytes(12)); break;
+        case 8: words[i] += std::string(static_cast<size_t>(*range<int>(100, 400)), pick(50) ? 'x' : '-'); break;
+        default: { size_t p = *range<size_t>(0, words[i].size()); words[i] = words[i].substr(p); break; }
+      }
+    }
+    std::string prog = "prog";
+    int pn = *range<int>(0, 9);
+    if (pn == 0) prog = "";
+    else if (pn == 1) prog = "p";
+    else if (pn == 2) prog = std::string(static_cast<size_t>(*range<int>(1, 40)), 'n');
+    else if (pn == 3) prog = "/a/b/" + std::string(static_cast<size_t>(*range<int>(0, 300)), 'q');
+    else if (pn == 4) prog = "dir/";
+    else if (pn == 5) prog = "/";
+    v.in.argv = {prog};
+    for (auto &w : words) v.in.argv.push_back(w);
+    // sources: sometimes a file and/or an environment string built from (mutated) words as well
+    if (pick(35)) {
+      v.in.haveFile = true; v.in.fileViaArgument = pick(30);
+      int nl = *range<int>(0, 4);
+      for (int l = 0; l < nl; ++l) {
+        int kind = *range<int>(0, 5);
+        if (kind == 0) v.in.fileBody += "# comment\n";
+        else if (kind == 1) v.in.fileBody += "\n";
+        else if (kind == 2) v.in.fileBody += randomBytes(30) + "\n";
+        else { for (auto &w : spell(c.cfg, genValidLine(c.cfg, pf), SpellOptions())) v.in.fileBody += w + " "; v.in.fileBody += pick(80) ? "\n" : ""; }
+      }
+    }
+    if (pick(35)) {
+      v.in.haveEnv = true; v.in.envName = pick(50) ? "" : "MY_PROG_ARGS";
+      if (pick(30)) v.in.envBody = randomBytes(30);
+      else for (auto &w : spell(c.cfg, genValidLine(c.cfg, pf), SpellOptions())) v.in.envBody += w + (pick(20) ? "'" : " ");
+    }
+    if (pick(30) && !v.in.haveFile && !v.in.haveEnv) {
+      v.in.groupCount = *range<int>(1, 3);
+      c.cfg.flags &= F_NO_ABBR;
+      std::vector<int> groupOf(c.cfg.args.size(), -1);
+      auto link = [&](int x, int y) { if (groupOf[x] < 0 && groupOf[y] < 0) groupOf[x] = groupOf[y] = *range<int>(0, v.in.groupCount - 1); else if (groupOf[x] < 0) groupOf[x] = groupOf[y]; else if (groupOf[y] < 0) groupOf[y] = groupOf[x]; };
+      for (size_t i = 0; i < c.cfg.args.size(); ++i) for (auto &ct : c.cfg.args[i].constraints) link(static_cast<int>(i), ct.second);
+      for (auto &h : c.cfg.hcs) for (size_t k = 1; k < h.args.size(); ++k) link(h.args[0], h.args[k]);
+      for (auto &g : groupOf) if (g < 0) g = *range<int>(0, v.in.groupCount - 1);
+      v.in.groupOf = groupOf;
+    }
+    v.note = "mutated";
+    c.vars.push_back(v);
+    return c;
+  });
+}
+
+std::string runMutate(const Case &c) {
+  auto &st = stats();
+  if (c.discarded) { st.cls("discarded." + c.discardWhy); return ""; }
+  const Variant &v = c.vars[0];
+  alarm(30);   // "evaluation terminates": a hang kills the process with SIGALRM, the driver keeps the case
+  RealResult r = runReal(c.cfg, v.in);
+  alarm(0);
+  if (r.threw && !r.stdException) return "argv " + argvText(v.in.argv) + ": an exception that is not derived from std::exception escaped";
+  st.cls(r.setupThrew ? "outcome.setup_exception" : r.threw ? "outcome.exception" : "outcome.return");
+  if (v.in.haveFile) st.cls("mutate.file_source");
+  if (v.in.haveEnv) st.cls("mutate.env_source");
+  if (v.in.groupCount) st.cls("mutate.groups");
+  if (v.in.argv.size() >= 2) st.markNontrivial();
+  return "";
+}
+
 // non-trivial rule for the valid modes is evaluated from the case content
 void markValidNontrivial(const Case &c, const std::string &mode) {
   if (c.discarded || c.vars.empty()) return;
@@ -768,6 +862,8 @@ struct Init {
     so.gen = genSources; so.run = runSources; so.show = showCase; so.parse = parseCase;
     auto &g = addMode<Case>("groups");
     g.gen = genGroups; g.run = runGroups; g.show = showCase; g.parse = parseCase;
+    auto &mu = addMode<Case>("mutate");
+    mu.gen = genMutate; mu.run = runMutate; mu.show = showCase; mu.parse = parseCase;
     auto &b = addMode<Case>("break");
     b.gen = genBreak; b.run = runBreak; b.show = showCase; b.parse = parseCase;
   }
